@@ -51,8 +51,12 @@ theorem ready_of_attrs (w : World EBB3_Obj) (hp : w.obj.port = .port) (he : w.ob
     Ebb3.Ready (absWorld w) := by
   constructor <;> simp [absWorld, absSt, hp, he, absPort, absOpt]
 
-theorem inS_ne_connect {c : Ebb3.Call} (h : inS c.method = true) : c.method ≠ .connect := by
-  intro hc; rw [hc] at h; cases h
+/-- the fault alphabet survives whatever regenerated code does: it only consumes the script (`Fr`) -/
+theorem admScript_of_fr {w w' : World EBB3_Obj} (hf : Fr w w') (ha : Ebb3.AdmScript (absWorld w)) :
+    Ebb3.AdmScript (absWorld w') := by
+  intro ev hev
+  obtain ⟨r, hr, rfl⟩ := List.mem_map.mp hev
+  exact ha _ (List.mem_map.mpr ⟨r, hf.2.1 r hr, rfl⟩)
 
 theorem encVal_failure {v : Ebb3.Val} (h : Ebb3.IsFailure v) :
     encVal v = .bool false ∨ encVal v = .none ∨ encVal v = .tuple [.none, .none] := by
